@@ -8,6 +8,9 @@
 #include "sched.hpp"
 #include "protect.hpp"
 #include <cstdarg>
+#if defined(__SSE__)
+#include <xmmintrin.h>
+#endif
 #include <csignal>
 #include <map>
 #include <set>
@@ -245,7 +248,16 @@ static void exec_plan(const J& plan) {
   const Workload* w = find_workload(plan.gets("w"));
   if (!w) { fprintf(stderr, "HARNESS: unknown workload '%s'\n", plan.gets("w").c_str()); exit(2); }
   alarm(plan.at("knobs").getu("watchdog", 120));
+#if defined(__SSE__)
+  // the calling thread's floating-point mode is part of the environment: an application linked with -ffast-math runs with
+  // flush-to-zero / denormals-are-zero set, and the library must keep float bits exact there too
+  unsigned csr = _mm_getcsr(); bool fp = plan.at("knobs").getu("fpmode", 0) != 0;
+  if (fp) { _mm_setcsr(csr | 0x8040u); stat_add("runs_with_ftz_daz"); }
+#endif
   w->exec(plan);
+#if defined(__SSE__)
+  if (fp) _mm_setcsr(csr);
+#endif
   alarm(0);
 }
 
